@@ -201,8 +201,18 @@ func (e *Env) Exec(scs []*scen.Scenario, timeout time.Duration) []*Run {
 		_ = os.MkdirAll(cwd, 0o755)
 	}
 	var fileDir string
-	for _, sc := range scs {
-		if sc.World.FileDir != "" {
+	for k, sc := range scs {
+		if sc.World.FileDir == "auto" {
+			// a private directory for the fd-backed destinations of this process
+			d, err := os.MkdirTemp(e.Scratch, "files-")
+			if err == nil {
+				c := *sc
+				c.World.FileDir = d
+				scs = append(append([]*scen.Scenario{}, scs[:k]...), append([]*scen.Scenario{&c}, scs[k+1:]...)...)
+				fileDir = d
+				defer os.RemoveAll(d)
+			}
+		} else if sc.World.FileDir != "" {
 			fileDir = sc.World.FileDir
 		}
 	}
